@@ -741,3 +741,70 @@ call P(
 		verifAssert(gerr == nil, "C02: its call graph resolves")
 	}
 }
+
+// ---- C17: assignability is reflexive and componentwise ----
+
+var c17AssignTypes = []string{"int", "float", "string", "txt", "map", "map<int>", "map<float>", "int[]", "float[]", "S", "S3", "S[]", "bool"}
+
+func c17AssignFixture() *Ast {
+	return verifCached("c17AssignFixture", func() any {
+		src := "filetype txt;\n\nstruct S(\n    int a,\n    int b,\n)\n\nstruct S3(\n    int a,\n    int b,\n    int c,\n)\n\n"
+		for i, t := range c17AssignTypes {
+			src += "struct W" + string(rune('a'+i)) + "(\n    " + t + " f,\n)\n\n"
+		}
+		src += "stage HOLD(\n    in  int x,\n"
+		for i, t := range c17AssignTypes {
+			n := string(rune('a' + i))
+			src += "    in  " + t + " p" + n + ",\n    in  W" + n + " w" + n + ",\n"
+			if t[len(t)-1] != ']' {
+				src += "    in  " + t + "[] a" + n + ",\n"
+				if !strings.HasPrefix(t, "map") {
+					src += "    in  map<" + t + "> m" + n + ",\n"
+				}
+			}
+		}
+		src += "    src comp \"bin\",\n)\n"
+		return c15Compile(src)
+	}).(*Ast)
+}
+
+// H_C17_assignability(i, j): types i and j from a family of 13 (scalars, a file
+// type, the untyped map, typed maps, arrays, a struct, a wider struct, an array
+// of structs), each also as the element of an array, the value of a typed map
+// and the single member of a struct.
+//
+//	C17: assignability is reflexive, and an array / typed map / struct is
+//	     assignable from another exactly when its component is assignable from
+//	     the other's component.
+func H_C17_assignability(i, j int) {
+	ast := c17AssignFixture()
+	lookup := &ast.TypeTable
+	params := ast.Stages[0].InParams.Table
+	get := func(prefix string, k int) Type {
+		p := params[prefix+string(rune('a'+k))]
+		if p == nil {
+			return nil
+		}
+		return lookup.Get(p.Tname)
+	}
+	ti, tj := get("p", i), get("p", j)
+	verifCover("assignability compared")
+	if i == j {
+		verifAssert(ti.IsAssignableFrom(tj, lookup) == nil, "C17: assignability is reflexive")
+	}
+	base := ti.IsAssignableFrom(tj, lookup) == nil
+	for _, wrap := range []struct{ prefix, what string }{{"a", "arrays"}, {"m", "typed maps"}, {"w", "structs"}} {
+		wi, wj := get(wrap.prefix, i), get(wrap.prefix, j)
+		if wi == nil || wj == nil {
+			continue
+		}
+		got := wi.IsAssignableFrom(wj, lookup) == nil
+		if wrap.prefix == "w" {
+			verifAssert(got == base, "C17: a struct is assignable from another exactly when its member is assignable from the other's member")
+		} else if wrap.prefix == "a" {
+			verifAssert(got == base, "C17: an array is assignable from another exactly when its element type is assignable from the other's")
+		} else {
+			verifAssert(got == base, "C17: a typed map is assignable from another exactly when its value type is assignable from the other's")
+		}
+	}
+}
